@@ -40,6 +40,22 @@ def _arrayish(t: frozenset) -> bool:
     return False
 
 
+def rebuilt_config_noise_model_wins(E: Engine, rep: Report, rule: str) -> None:
+    """In the configuration QutipBackendV2 rebuilds around the emulated noise model, the `noise_model` entry must win
+    over the user's options: in a dict display later keys override earlier ones, so it follows every ** spread."""
+    f = E.fn("pulser_simulation.qutip_backend.QutipBackendV2.__init__")
+    for l in S(E, f, inline=False).logged("store"):
+        if l.target != ("attr", ("name", "self"), "_config") or l.value is None:
+            continue
+        for d in [t for t in sym.subterms(l.value) if t[0] == "dict"]:
+            keys = [kv[0] for kv in d[1:]]
+            if ("const", "noise_model") in keys and ("const", "**") in keys:
+                i_nm = max(i for i, k in enumerate(keys) if k == ("const", "noise_model"))
+                i_sp = max(i for i, k in enumerate(keys) if k == ("const", "**"))
+                rep.check(i_nm > i_sp, rule, "QutipBackendV2.__init__|emulated-noise-model-overrides-the-user's-options", "'noise_model' follows the ** spread of the user's options",
+                          f"the configuration is rebuilt from `{sh(d, 120)}`: the spread of the user's options comes after the 'noise_model' key and overrides it, so the observables (BitStrings: p_false_pos / p_false_neg) read the user's noise model while the emulator runs the device's", E.where(f, l.node))
+
+
 def run(E: Engine, rep: Report, tier: str) -> dict:
     P = E.P
     # ------------------------------------------------------------ TYPECMP
@@ -251,10 +267,18 @@ def run(E: Engine, rep: Report, tier: str) -> dict:
     prefers = any(mentions(l.cond, "prefer_device_noise_model") or (l.value is not None and mentions(l.value, "prefer_device_noise_model")) for l in S5.log)
     cfg_store = [l for l in S5.logged("store") if l.target == ("attr", ("name", "self"), "_config") and l.value is not None and mentions(l.value, "noise_model")]
     rep.check((not prefers) or any(mentions(l.value, "default_noise_model") or mentions(l.cond, "noise_model") for l in cfg_store), "TABLE", "QutipBackendV2.__init__|config-holds-the-emulated-noise-model", "self._config is rebuilt with the emulated noise model when it differs from the user's", "with prefer_device_noise_model the device's default noise model goes to the emulator only: self._config.noise_model stays the user's, and BitStrings takes p_false_pos / p_false_neg from it, so the detection errors of the emulated model are dropped (the legacy backend applies them)", E.where(v2i5))
+    rebuilt_config_noise_model_wins(E, rep, "TABLE")
     # (c) the initial state's own eigenstate order is honoured: V2 hands `initial_state.to_qobj()` to the emulator, whose
     #     basis order is Hamiltonian.eigenbasis -- a state given with eigenstates ('g', 'r') must be permuted (or refused)
     init_calls = [l for l in S5.calls("set_initial_state")]
     uses_order = any(mentions(l.cond, "eigenstates") or any(mentions(a_, "eigenstates") or mentions(a_, "eigenbasis") for a_ in l.value[2]) for l in init_calls) or any(l.kind == "raise" and mentions(l.cond, "eigenstates") for l in S5.log)
+    # ... and the comparison is one of ORDER: a set / sorted / Counter comparison accepts ('g', 'r') for ('r', 'g') and the
+    #     amplitudes are then read in the wrong order
+    for l in S5.log:
+        if l.kind == "raise" and mentions(l.cond, "eigenstates"):
+            unordered = [t for c_ in sym.conj_of(l.cond) if mentions(c_, "eigenstates") for t in sym.subterms(c_) if t[0] == "call" and t[1] in (("name", "set"), ("name", "frozenset"), ("name", "sorted"), ("name", "Counter"), ("attr", ("name", "collections"), "Counter")) and t[2] and mentions(t[2][0], "eigenstates")]
+            rep.check(not unordered, "TABLE", "QutipBackendV2.__init__|initial-state-eigenstates-compared-in-order", "the eigenstates are compared as ordered tuples (or the state is permuted)",
+                      f"the initial state's eigenstates are compared through `{sh(unordered[0], 80) if unordered else ''}`: an order-insensitive test accepts a state given in ('g', 'r') order, whose amplitudes are then read in the emulator's ('r', 'g') order -- |rg> is emulated as |gr>", E.where(v2i5, l.node))
     rep.check(uses_order or not init_calls, "TABLE", "QutipBackendV2.__init__|initial-state-in-the-emulator's-eigenstate-order", "the initial state's eigenstates are compared with / permuted into the emulator's order", "QutipBackendV2 passes config.initial_state.to_qobj() straight to the emulator and drops the state's own `eigenstates` order: a state built with eigenstates ('g', 'r') and amplitudes {'gr': 1.0} is read in the emulator's ('r', 'g') order, so |g> becomes |r> (an all-zero drive 'changes' the state)", E.where(v2i5, init_calls[0].node if init_calls else None))
     # (d) a result is stored under the relative time that was configured: the V2 run reads `evaluation_time` back from the
     #     legacy results, i.e. r * T / 1000 converted back with / (T / 1000), which is not always r again
